@@ -1,12 +1,298 @@
-//! C05 — sender monitor. Part 1: every segment emitted in every tcp2 execution (both real
-//! endpoints monitored, see tcp2::on_emit). Part 2 (tcp1 sender mode, adversarial peer): TODO.
+//! C05 — sender monitor.
+//! Part 1: every segment emitted in every tcp2 execution (both real endpoints monitored).
+//! Part 2: tcp1 sender mode — one real socket, the explorer is the peer and answers with
+//! arbitrary (also stale, shrinking, zero) ACK/window combinations; BFS with visited set.
+
 use crate::core::*;
+use crate::sendmon::{EmitCtx, SenderMon};
+use crate::tcp1::{build_seg, One};
+use crate::wirecheck as wc;
+use serde_json::json;
+use smoltcp::socket::tcp::State;
+
+#[derive(Clone, Debug)]
+pub struct TxCfg {
+    pub name: &'static str,
+    pub tx: usize,
+    pub rx: usize,
+    pub len: usize,
+    pub chunk: usize,
+    /// MSS option in the peer's SYN (None = absent)
+    pub peer_mss: Option<u16>,
+    /// window scale option in the peer's SYN (None = absent)
+    pub peer_ws: Option<u8>,
+    pub server: bool,
+    pub mtu: usize,
+    pub peer_isn: u32,
+}
+
+#[derive(Clone, Debug, PartialEq)]
+pub enum TxEv {
+    /// peer sends an ACK: which = 0 dup of last, 1 last+1, 2 middle, 3 everything sent; win index
+    Ack { which: u8, win: u8 },
+    /// peer re-sends an earlier ACK segment verbatim (0 = the first one, 1 = the one before last)
+    Stale(u8),
+    AppWrite,
+    AppClose,
+    Tick,
+}
+
+pub struct Tx {
+    cfg: TxCfg,
+    w: One,
+    mon: SenderMon,
+    data: Vec<u8>,
+    written: usize,
+    closed: bool,
+    last_ack: u32,
+    acks_sent: Vec<(u32, u16)>,
+    peer_seq: u32,
+    pending: Vec<Viol>,
+}
+
+fn syn_opts(cfg: &TxCfg) -> Vec<u8> {
+    let mut o = vec![];
+    if let Some(m) = cfg.peer_mss {
+        o.extend_from_slice(&[2, 4, (m >> 8) as u8, m as u8]);
+    }
+    if let Some(s) = cfg.peer_ws {
+        o.extend_from_slice(&[3, 3, s, 1]);
+    }
+    o
+}
+
+impl Tx {
+    fn win_values(&self) -> Vec<u16> {
+        let mss = match self.cfg.peer_mss {
+            None | Some(0) => 536,
+            Some(m) => m.max(48),
+        };
+        vec![0, 1, 2, mss, 1000]
+    }
+    fn observe(&mut self, frames: Vec<Vec<u8>>) {
+        let n = frames.len();
+        let rq = self.w.sock().recv_queue();
+        for f in frames {
+            let ctx = EmitCtx {
+                who: "socket",
+                mtu: self.cfg.mtu,
+                written: self.written,
+                closed: self.closed,
+                data: &self.data,
+                rx_cap: self.cfg.rx,
+                recv_queue_after: rq,
+                only_frame_of_poll: n == 1,
+                keep_alive: false,
+                expect_isn: None,
+            };
+            let v = self.mon.check_emit(&f, &ctx);
+            self.pending.extend(v);
+        }
+    }
+    fn deliver(&mut self, seg: Vec<u8>) {
+        if let Ok(ip) = wc::parse_ip(&seg) {
+            if let Ok(t) = wc::parse_tcp(&ip, &seg) {
+                self.mon.learn_seg(&t);
+            }
+        }
+        self.w.dev.rx.push_back(seg);
+        let f = self.w.poll();
+        self.observe(f);
+    }
+}
+
+impl Harness for Tx {
+    type Cfg = TxCfg;
+    type Ev = TxEv;
+    fn new(cfg: &TxCfg) -> Tx {
+        let mut w = One::with_mtu(cfg.rx, cfg.tx, 0x55, cfg.mtu);
+        let mut t = Tx {
+            cfg: cfg.clone(),
+            mon: SenderMon::default(),
+            data: crate::tcp2::pattern(0, cfg.len),
+            written: 0,
+            closed: false,
+            last_ack: 0,
+            acks_sent: vec![],
+            peer_seq: cfg.peer_isn.wrapping_add(1),
+            pending: vec![],
+            w: One::new(1, 1, 0), // placeholder, swapped in below
+        };
+        let p = cfg.peer_isn;
+        let opts = syn_opts(cfg);
+        if cfg.server {
+            w.sock().listen(80).unwrap();
+            std::mem::swap(&mut t.w, &mut w);
+            t.deliver(build_seg(p, None, wc::TCP_SYN, 1000, &opts, &[]));
+            let iss = t.mon.iss.unwrap_or(0);
+            t.last_ack = iss.wrapping_add(1);
+            let a = build_seg(p.wrapping_add(1), Some(t.last_ack), 0, 1000, &[], &[]);
+            t.acks_sent.push((t.last_ack, 1000));
+            t.deliver(a);
+        } else {
+            assert!(w.connect());
+            std::mem::swap(&mut t.w, &mut w);
+            let f = t.w.poll();
+            t.observe(f);
+            let iss = t.mon.iss.unwrap_or(0);
+            t.last_ack = iss.wrapping_add(1);
+            t.acks_sent.push((t.last_ack, 1000));
+            t.deliver(build_seg(p, Some(t.last_ack), wc::TCP_SYN, 1000, &opts, &[]));
+        }
+        if t.w.state() != State::Established {
+            t.pending.push(Viol::new("MACHINERY/handshake-failed", format!("state {}", t.w.state())));
+        }
+        t
+    }
+    fn enabled(&self) -> Vec<(TxEv, u32)> {
+        let mut v = vec![];
+        for which in 0..4u8 {
+            for win in 0..5u8 {
+                v.push((TxEv::Ack { which, win }, 0));
+            }
+        }
+        if self.acks_sent.len() >= 2 {
+            v.push((TxEv::Stale(0), 0));
+            v.push((TxEv::Stale(1), 0));
+        }
+        if self.written < self.data.len() {
+            v.push((TxEv::AppWrite, 0));
+        } else if !self.closed {
+            v.push((TxEv::AppClose, 0));
+        }
+        v.push((TxEv::Tick, 0));
+        v
+    }
+    fn apply(&mut self, ev: &TxEv, out: &mut Vec<Viol>) {
+        match *ev {
+            TxEv::Ack { which, win } => {
+                let nxt = self.mon.highest_sent.unwrap_or(self.last_ack);
+                let span = wc::seq_diff(nxt, self.last_ack).max(0) as u32;
+                let a = match which {
+                    0 => self.last_ack,
+                    1 => self.last_ack.wrapping_add(span.min(1)),
+                    2 => self.last_ack.wrapping_add(span / 2),
+                    _ => nxt,
+                };
+                let w = self.win_values()[win as usize];
+                self.last_ack = a;
+                self.acks_sent.push((a, w));
+                let seg = build_seg(self.peer_seq, Some(a), 0, w, &[], &[]);
+                self.deliver(seg);
+            }
+            TxEv::Stale(i) => {
+                let idx = if i == 0 { 0 } else { self.acks_sent.len() - 2 };
+                let (a, w) = self.acks_sent[idx];
+                let seg = build_seg(self.peer_seq, Some(a), 0, w, &[], &[]);
+                self.deliver(seg);
+            }
+            TxEv::AppWrite => {
+                let n = self.cfg.chunk.min(self.data.len() - self.written);
+                let d = self.data[self.written..self.written + n].to_vec();
+                if let Ok(k) = self.w.sock().send_slice(&d) {
+                    self.written += k;
+                }
+                let f = self.w.poll();
+                self.observe(f);
+            }
+            TxEv::AppClose => {
+                self.w.sock().close();
+                self.closed = true;
+                let f = self.w.poll();
+                self.observe(f);
+            }
+            TxEv::Tick => {
+                if let Some(t) = self.w.poll_at() {
+                    if t > self.w.now {
+                        self.w.now = t;
+                    }
+                    let f = self.w.poll();
+                    self.observe(f);
+                }
+            }
+        }
+        if std::env::var("MC_TRACE").is_ok() {
+            let img = format!("{:?}", self.w.sockets.get::<smoltcp::socket::tcp::Socket>(self.w.h));
+            let cut = img.find("timer:").unwrap_or(0);
+            let end = img[cut..].find("assembler").map(|i| i + cut).unwrap_or(img.len());
+            eprintln!("after {:?}: state {} {} poll_at {:?} now {}", ev, self.w.state(), &img[cut..end], self.w.poll_at(), self.w.now);
+            let f = img.find("remote_win_len").unwrap_or(0);
+            eprintln!("     {}", &img[f..(f + 400).min(img.len())]);
+        }
+        out.append(&mut self.pending);
+    }
+    fn fingerprint(&self) -> u128 {
+        let img = format!("{:?}", self.w.sockets);
+        fp128(&format!(
+            "{}|{}|{}|{}|{:?}|{:?}|{:?}|{}",
+            img, self.written, self.closed, self.last_ack, self.acks_sent.first(), self.acks_sent.last(), self.mon.max_edge, self.w.now
+        ))
+    }
+    fn outcome(&self) -> String {
+        format!("{} data_segs {} retrans {} probes {}", self.w.state(), self.mon.data_segs, self.mon.retrans_segs, self.mon.probes)
+    }
+}
+
+pub fn tx_configs(tier: Tier) -> Vec<(TxCfg, usize)> {
+    let (mut d, dbig) = if tier == Tier::Quick { (6, 2) } else { (8, 3) };
+    if let Ok(x) = std::env::var("TX_D") { d = x.parse().unwrap(); }
+    let base = TxCfg { name: "base", tx: 64, rx: 64, len: 40, chunk: 16, peer_mss: Some(100), peer_ws: None, server: true, mtu: 1500, peer_isn: 0xffff_fff0 };
+    vec![
+        (base.clone(), d),
+        (TxCfg { name: "mss-absent", peer_mss: None, len: 30, chunk: 30, ..base.clone() }, d),
+        (TxCfg { name: "mss-0", peer_mss: Some(0), len: 30, chunk: 30, ..base.clone() }, d),
+        (TxCfg { name: "mss-1", peer_mss: Some(1), tx: 128, len: 100, chunk: 100, ..base.clone() }, d),
+        (TxCfg { name: "mss-47", peer_mss: Some(47), tx: 128, len: 100, chunk: 100, ..base.clone() }, d),
+        (TxCfg { name: "mss-48-client", peer_mss: Some(48), tx: 128, len: 100, chunk: 100, server: false, ..base.clone() }, d),
+        (TxCfg { name: "mss-536-mtu-100", peer_mss: Some(536), tx: 256, len: 200, chunk: 200, mtu: 100, ..base.clone() }, d),
+        (TxCfg { name: "ws2", peer_ws: Some(2), tx: 256, len: 120, chunk: 60, ..base.clone() }, d),
+        (TxCfg { name: "bigrx-no-peer-ws", rx: 70000, len: 20, chunk: 20, ..base.clone() }, dbig),
+        (TxCfg { name: "bigrx-peer-ws0", rx: 70000, len: 20, chunk: 20, peer_ws: Some(0), ..base.clone() }, dbig),
+        (TxCfg { name: "bigrx-client-no-peer-ws", rx: 70000, len: 20, chunk: 20, server: false, ..base.clone() }, dbig),
+    ]
+}
 
 pub fn run(tier: Tier) -> i32 {
     let mut rep = Report::new("C05", tier);
+    // part 2 first (cheap)
+    let lim = Limits { max_states: 3_000_000, max_wall_s: if tier == Tier::Quick { 30.0 } else { 600.0 } };
+    for (cfg, d) in tx_configs(tier) {
+        let mut samples = vec![];
+        let mut found = vec![];
+        let t0 = std::time::Instant::now();
+        match bfs::<Tx>("tcp1tx", &cfg, d, &lim, &mut found, &mut samples) {
+            Ok(st) => {
+                eprintln!("tcp1tx cfg={} d<={} states={} transitions={} wall={:.1}s", cfg.name, d, st.states, st.transitions, t0.elapsed().as_secs_f64());
+                rep.absorb(&format!("tcp1 sender cfg={} depth<={}", cfg.name, d), &st);
+                if rep.samples.len() < 3 {
+                    rep.samples.extend(samples);
+                }
+            }
+            Err(e) => rep.machinery_errors.push(e),
+        }
+        for f in found {
+            if f.viol.sig.starts_with("MACHINERY") {
+                rep.machinery_errors.push(f.viol.detail);
+            } else if f.viol.sig.starts_with("C05/") || f.viol.sig.starts_with("panic/") {
+                rep.found.push(f);
+            }
+        }
+    }
     crate::tcp2::explore_all(&mut rep, tier, &["C05/", "panic/"]);
+    rep.cov("rule", json!("part 1: monitor over every segment of every execution of the deviation-bounded tcp2 search; part 2: BFS with visited set over one real socket whose peer (the explorer) sends ACK in {dup, +1, middle, all} x window in {0,1,2,mss,1000}, replays stale ACKs, with peer MSS in {absent,0,1,47,48,100,536}, window scale in {absent,0,2}, receive buffers up to 70000, application write/close as explicit events and timer ticks"));
     rep.finish()
 }
+
+fn tx_cfg_from(art: &serde_json::Value) -> Option<TxCfg> {
+    let s = art["replay"]["config"].as_str()?;
+    tx_configs(Tier::Thorough).into_iter().map(|c| c.0).find(|c| format!("{:?}", c) == s)
+}
 pub fn replay(art: &serde_json::Value) -> i32 {
+    if art["replay"]["harness"].as_str() == Some("tcp1tx") {
+        return match tx_cfg_from(art) {
+            Some(c) => replay_artifact::<Tx>(&c, art),
+            None => 2,
+        };
+    }
     crate::tcp2::replay_c01(art)
 }
